@@ -341,7 +341,16 @@ class DFXPWriter(BaseWriter):
 
         # Loop through all captions/nodes and apply transformations to layout
         # in function of the provided or default settings
+        if caption_set.layout_info and self.relativize:
+            caption_set.layout_info = caption_set.layout_info.as_percentage_of(
+                self.video_width, self.video_height)
         for lang in langs:
+            lang_layout = caption_set.get_layout_info(lang)
+            if lang_layout and self.relativize:
+                # The <div> region is written as well: never in absolute units
+                caption_set.set_layout_info(
+                    lang, lang_layout.as_percentage_of(
+                        self.video_width, self.video_height))
             for caption in caption_set.get_captions(lang):
                 caption.layout_info = self._relativize_and_fit_to_screen(
                     caption.layout_info)
